@@ -70,6 +70,69 @@ EQUIV = [
     ("nack-encode-shifts", "src/feedback/nack.rs", """        ((base & 0xff00) >> 8) as u8,
         (base & 0xff) as u8,""", """        (base >> 8) as u8,
         base as u8,"""),
+    ("bye-reason-map-or-from", "src/bye.rs", ".checked_sub(offset + 1 + self.padding().unwrap_or(0) as usize)?;",
+     ".checked_sub(offset + 1 + self.padding().map_or(0, usize::from))?;"),
+    ("sr-size-product", "src/sender.rs", """        let mut report_blocks_size = 0;
+        for rb in self.report_blocks.iter() {
+            report_blocks_size += rb.calculate_size()?;
+        }
+""", """        for rb in self.report_blocks.iter() {
+            rb.calculate_size()?;
+        }
+        let report_blocks_size = self.report_blocks.len() * ReportBlock::EXPECTED_SIZE;
+"""),
+    ("sr-writer-enumerate", "src/sender.rs", """        let mut idx = 28;
+        let mut end = idx;
+        for report_block in self.report_blocks.iter() {
+            end += ReportBlock::EXPECTED_SIZE;
+            report_block.write_into_unchecked(&mut buf[idx..end]);
+            idx = end;
+        }
+""", """        for (i, report_block) in self.report_blocks.iter().enumerate() {
+            let start = 28 + i * ReportBlock::EXPECTED_SIZE;
+            report_block.write_into_unchecked(&mut buf[start..start + ReportBlock::EXPECTED_SIZE]);
+        }
+        let idx = 28 + self.report_blocks.len() * ReportBlock::EXPECTED_SIZE;
+        let mut end = idx;
+"""),
+    ("rb-parse-cmp", "src/report_block.rs", """        if data.len() < Self::EXPECTED_SIZE {
+            return Err(RtcpParseError::Truncated {
+                expected: Self::EXPECTED_SIZE,
+                actual: data.len(),
+            });
+        }
+        if data.len() > Self::EXPECTED_SIZE {
+            return Err(RtcpParseError::TooLarge {
+                expected: Self::EXPECTED_SIZE,
+                actual: data.len(),
+            });
+        }
+""", """        match data.len().cmp(&Self::EXPECTED_SIZE) {
+            std::cmp::Ordering::Less => {
+                return Err(RtcpParseError::Truncated {
+                    expected: Self::EXPECTED_SIZE,
+                    actual: data.len(),
+                })
+            }
+            std::cmp::Ordering::Greater => {
+                return Err(RtcpParseError::TooLarge {
+                    expected: Self::EXPECTED_SIZE,
+                    actual: data.len(),
+                })
+            }
+            std::cmp::Ordering::Equal => {}
+        }
+"""),
+    ("sr-req-len-from", "src/sender.rs", "Self::MIN_PACKET_LEN + parser::parse_count(data) as usize * ReportBlock::EXPECTED_SIZE;",
+     "Self::MIN_PACKET_LEN + usize::from(parser::parse_count(data)) * 24;"),
+    ("sr-blocks-double-slice", "src/sender.rs", "self.data[Self::MIN_PACKET_LEN..Self::MIN_PACKET_LEN + (self.n_reports() as usize * 24)]",
+     "self.data[Self::MIN_PACKET_LEN..][..self.n_reports() as usize * 24]"),
+    ("rb-cumulative-bytes", "src/report_block.rs", "u32_from_be_bytes(&self.data[4..8]) & 0xffffff",
+     "(u32::from(self.data[5]) << 16) | (u32::from(self.data[6]) << 8) | u32::from(self.data[7])"),
+    ("sdes-item-len-from", "src/sdes.rs", "        let length = data[1] as usize;", "        let length = usize::from(data[1]);"),
+    ("sdes-item-end-flip", "src/sdes.rs", "        if end > data.len() {", "        if data.len() < end {"),
+    ("sdes-priv-check-len", "src/sdes.rs", "            if value_offset as usize > end {", "            if usize::from(value_offset) > item.data.len() {"),
+    ("sdes-value-split-at", "src/sdes.rs", "            &self.data[offset..]", "            self.data.split_at(offset).1"),
 ]
 
 # (name, file, old, new, properties expected to report) — hand-written breaking edits (the sub-agent ones are in seeded/)
